@@ -1,4 +1,5 @@
 import OH.Props.C13
+import OH.Props.C07E
 import OH.Props.TablesC07
 #print axioms OH.Props.C13.normalizeM_eq
 #print axioms OH.Props.C13.C13_no_panic
@@ -9,4 +10,8 @@ import OH.Props.TablesC07
 #print axioms OH.Props.C13.C13_idempotent_M
 #print axioms OH.Props.C13.d13Witness_normalizes
 #print axioms OH.Props.C13.C13_idempotent_before_repair_fails
+#print axioms OH.Props.C07E.parsed_exprOK
+#print axioms OH.Props.C07E.C07_every_parsed_expression
+#print axioms OH.Props.C07E.C13_every_parsed_expression
+#print axioms OH.Props.C07E.C13_every_normal_form_prints_and_reparses
 #print axioms OH.Props.TablesC07.C07_frames
